@@ -172,6 +172,36 @@ let op_s2s (args : string list) : string =
       | M.MateNeg n -> "mate -" ^ string_of_int (int_of_z n))
   | _ -> "BAD-ARGS"
 
+
+let bb_words : M.n array Lazy.t = lazy (Array.of_list M.bitbase_dump)
+let bb_word (i : M.n) : M.n = let a = Lazy.force bb_words in let k = int_of_n i in if k < Array.length a then a.(k) else M.N0
+
+(* egeval <fen> : "<registry index or -1> <endgame score or NONE>" by the model of endgame.cpp *)
+let op_egeval (fen : string) : string =
+  with_fen fen (fun q ->
+      let p = M.egp_of_position q in
+      let flat = List.concat_map (fun t -> [(t, M.White); (t, M.Black)]) M.registry in
+      let idx = match M.eg_find p with
+        | None -> -1
+        | Some (t, c) -> let rec go i = function [] -> -1 | (t', c') :: r -> if t' = t && c' = c then i else go (i + 1) r in go 0 flat in
+      match M.eg_score bb_word p with
+      | None -> Printf.sprintf "%d NONE" idx
+      | Some v -> Printf.sprintf "%d %d" idx (int_of_z v))
+
+
+(* hm <tok> ... : the model of HashMap<uint64_t, Score, 512*512> (Engine/EvalCache.v); same protocol as the harness *)
+let op_hm (args : string list) : string =
+  let t = ref (M.t_init (0, 0)) in
+  let out = ref [] in
+  List.iter (fun tok ->
+      if tok = "c" then t := M.t_clear (0, 0) !t
+      else match String.split_on_char ':' tok with
+        | ["i"; k; mg; eg] -> t := M.t_insert !t (n_of_hex k) (int_of_string mg, int_of_string eg)
+        | ["p"; k] -> let (found, (mg, eg)) = M.t_probe !t (n_of_hex k) in
+          out := Printf.sprintf "%d:%d:%d" (if found then 1 else 0) mg eg :: !out
+        | _ -> ()) args;
+  String.concat " " (List.rev !out)
+
 (* ---------- game ops: "<op> <fen> | m1 m2 ..." ; one observation per position, joined by " ; " ---------- *)
 let split_game (rest : string) : string * string list =
   match String.index_opt rest '|' with
@@ -466,8 +496,6 @@ let op_pgdecode (rest : string) : string =
       String.concat " " (List.map (fun c -> pi (M.decode_move (n_of_int (int_of_string c)) (fun sq -> M.piece_at s sq))) codes))
 
 (* ---------- C12 KPK: the model of normalize/getIndex/check over the dumped table ---------- *)
-let bb_words : M.n array Lazy.t = lazy (Array.of_list M.bitbase_dump)
-let bb_word (i : M.n) : M.n = let a = Lazy.force bb_words in let k = int_of_n i in if k < Array.length a then a.(k) else M.N0
 let op_kpkraw (args : string list) : string =
   match args with
   | [strong; stm; pawn] ->
@@ -660,6 +688,8 @@ let dispatch (line : string) : string =
      | "legal" -> op_legal (rest_after line 1)
      | "valid" -> op_valid (rest_after line 1)
      | "mate" -> op_mate args line
+     | "hm" -> op_hm args
+     | "egeval" -> op_egeval (rest_after line 1)
      | "s2s" -> op_s2s args
      | "g_legal" -> run_game (rest_after line 1) obs_legal
      | "g_fen" -> run_game (rest_after line 1) obs_fen
